@@ -47,7 +47,7 @@ def run_cli_check(prop, tier):
             continue
         evs = slice_at_line(v["trace"], v["line"])
         sc = evs[0] if evs else {}
-        mode = {k: sc.get(k) for k in ("cmd", "out", "force", "inplace", "arch", "pin", "nseeds", "stdin_seed", "verify_out", "transport", "empty_input", "stale_tmp", "late", "race")}
+        mode = {k: sc.get(k) for k in ("cmd", "out", "force", "inplace", "arch", "pin", "nseeds", "stdin_seed", "verify_out", "transport", "empty_input", "stale_tmp", "late", "race", "seed_out")}
         out.violation("%s|%s" % (v["rule"], json.dumps(mode, sort_keys=True)), "%s (mode %s)" % (v["rule"], json.dumps(mode)),
                       {"kind": "cli_l2", "mode": mode, "verdict": {k: v[k] for k in ("rule", "scenario", "line")}, "events": evs[:60]})
     samples = [slice_at_line(traces[0], 2)[:12]]
